@@ -196,10 +196,11 @@ def scalarOf (bt : Nat) (isBool : Bool) (x : Nat) : Value :=
   else if bt = btFloat64 then .float64 x
   else .invalid
 
-/-- the array value of base type `bt` holding the numbers `xs` -/
+/-- the array value of base type `bt` holding the numbers `xs` (`isBool`: the field's profile type is bool — every element
+clamped to the domain of `typedef.Bool` as `scalarOf` / `mkBool` does for one value; `UnmarshalValue` since /repo 5da5106) -/
 def sliceOf (bt : Nat) (isBool : Bool) (xs : List Nat) : Value :=
   if bt = btSint8 then .sliceInt8 xs
-  else if bt = btEnum ∨ bt = btByte ∨ bt = btUint8 ∨ bt = btUint8z then (if isBool then .sliceBool xs else .sliceUint8 xs)
+  else if bt = btEnum ∨ bt = btByte ∨ bt = btUint8 ∨ bt = btUint8z then (if isBool then .sliceBool (xs.map clampBool) else .sliceUint8 xs)
   else if bt = btSint16 then .sliceInt16 xs
   else if bt = btUint16 ∨ bt = btUint16z then .sliceUint16 xs
   else if bt = btSint32 then .sliceInt32 xs
@@ -409,16 +410,6 @@ def seqClass (p : Nat → Bool → Bool → Value → Bool) (fac : DecApi.Factor
 def kfZero (fac : DecApi.Factory) (kept : List Message) : Bool := seqClass (fun _ _ _ v => kfZeroV v) fac {} kept
 def kfArr (fac : DecApi.Factory) (kept : List Message) : Bool := seqClass kfArrV fac {} kept
 def kfFFFD (fac : DecApi.Factory) (kept : List Message) : Bool := seqClass (fun _ _ _ v => kfFFFDV v) fac {} kept
-
-/-- a decoded `typedef.Bool` array holding a byte other than 0 / 1 / 255: `UnmarshalValue` returns array elements as they
-are (a single `Bool` is clamped to invalid), `MarshalAppend` writes 255 for them — re-encoding what the decoder returned
-gives other messages -/
-def kfBoolArrV : Value → Bool
-  | .sliceBool xs => xs.any (fun x => x != 0 && x != 1 && x != 255)
-  | _ => false
-
-def kfBoolArr (fits : List DecApi.Fit) : Bool :=
-  fits.any fun f => f.msgs.any fun m => m.fields.any (fun d => kfBoolArrV d.value) || m.devs.any (fun d => kfBoolArrV d.value)
 
 /-! ### the typing assumptions of the theorems -/
 
